@@ -54,3 +54,51 @@ func (d *DNSFilter) VerifRunPendingInit() (ran bool, err error) {
 		return false, nil
 	}
 }
+
+// VerifPendingInits is the number of engine initialisations waiting in the
+// channel.
+func (d *DNSFilter) VerifPendingInits() (n int) { return len(d.filtersInitializerChan) }
+
+// VerifInitTask is a task taken from the channel and not yet carried out.
+type VerifInitTask struct{ params filtersInitializerParams }
+
+// VerifTakePendingInit is the receive of updatesLoop's first arm alone: the
+// loop has taken the task and is busy with it until VerifInstall.
+func (d *DNSFilter) VerifTakePendingInit() (task *VerifInitTask) {
+	select {
+	case params := <-d.filtersInitializerChan:
+		return &VerifInitTask{params: params}
+	default:
+		return nil
+	}
+}
+
+// VerifInstall is the rest of updatesLoop's first arm: initFiltering with the
+// parameters of the task.
+func (d *DNSFilter) VerifInstall(task *VerifInitTask) (err error) {
+	return d.initFiltering(task.params.allowFilters, task.params.blockFilters)
+}
+
+// VerifRunLoopUntilDrained runs the REAL updatesLoop in a goroutine, asks it
+// to stop (the done channel, as Close does) and waits until it has returned;
+// the loop's select may see the stop request before a queued task, so this
+// is repeated until the channel is empty after the loop has returned.  Every
+// task the loop took has then been carried out by the loop itself; nothing
+// depends on how fast the goroutine runs.
+func (d *DNSFilter) VerifRunLoopUntilDrained() (rounds int) {
+	for {
+		d.done = make(chan struct{}, 1)
+		exited := make(chan struct{})
+		go func() {
+			defer close(exited)
+			d.updatesLoop()
+		}()
+		d.done <- struct{}{}
+		<-exited
+		d.done = nil
+		rounds++
+		if len(d.filtersInitializerChan) == 0 {
+			return rounds
+		}
+	}
+}
